@@ -3,10 +3,10 @@
 SRC=${1:-/repo/src/femto}
 D=$(mktemp -d /tmp/tieall_XXXX)
 cp /verif/coq/tie/*.v $D/
-/venv/bin/python /verif/harness/py2coq.py $SRC $D pgm SrcLp.v SrcNw.v SrcTc.v SrcTr.v SrcWr.v SrcFc.v SrcAe.v SrcDev.v SrcHl.v SrcPa.v SrcTn.v SrcSs.v SrcUf.v SrcMk.v SrcAp.v SrcRi.v SrcLb.v SrcTp.v SrcWn.v SrcRp.v || { echo "TRANSLATOR FAILED"; rm -rf $D; exit 1; }
+/venv/bin/python /verif/harness/py2coq.py $SRC $D pgm SrcLp.v SrcNw.v SrcTc.v SrcTr.v SrcWr.v SrcFc.v SrcAe.v SrcDev.v SrcHl.v SrcPa.v SrcTn.v SrcSs.v SrcUf.v SrcMk.v SrcAp.v SrcRi.v SrcLb.v SrcTp.v SrcWn.v SrcRp.v SrcRt.v || { echo "TRANSLATOR FAILED"; rm -rf $D; exit 1; }
 cd $D
 rc=0
-for f in PyPrelude PgmState PureState TrState FcState AeState LineTok PgmSrc PgmEquiv SrcProps SrcLp EquivLp SrcNw EquivNw SrcTc EquivTc SrcTr EquivTr SrcWr EquivWr SrcFc EquivFc SrcAe EquivAe DevState SrcDev EquivDev SrcHl EquivHl PaState SrcPa EquivPa TnState SrcTn EquivTn SsState SrcSs EquivSs NpState SrcUf EquivUf MkState SrcMk EquivMk SrcAp EquivAp RiState SrcRi EquivRi LbState SrcLb EquivLb TpState SrcTp EquivTp WnState SrcWn EquivWn RpState SrcRp EquivRp; do
+for f in PyPrelude PgmState PureState TrState FcState AeState LineTok PgmSrc PgmEquiv SrcProps SrcLp EquivLp SrcNw EquivNw SrcTc EquivTc SrcTr EquivTr SrcWr EquivWr SrcFc EquivFc SrcAe EquivAe DevState SrcDev EquivDev SrcHl EquivHl PaState SrcPa EquivPa TnState SrcTn EquivTn SsState SrcSs EquivSs NpState SrcUf EquivUf MkState SrcMk EquivMk SrcAp EquivAp RiState SrcRi EquivRi LbState SrcLb EquivLb TpState SrcTp EquivTp WnState SrcWn EquivWn RpState SrcRp EquivRp RtState SrcRt EquivRt; do
   out=$(timeout 900 coqc -Q /verif/coq/theories Femto -Q $D FemtoTie -w -deprecated-hint-without-locality,-deprecated-instance-without-locality,-notation-overridden $f.v 2>&1)
   if [ $? -ne 0 ]; then echo "FAIL $f"; echo "$out" | head -15; rc=1; break; fi
   echo "$f ok: $(echo "$out" | grep -c 'Closed under') closed, $(echo "$out" | grep -c '^Axioms')  with axioms"
